@@ -139,7 +139,10 @@ func (m *Manager) startPipeline(ctx context.Context, pipeline ledger.Pipeline) (
 	subscription := make(chan uint64)
 
 	m.logger.Infof("starting handler")
+	drained := make(chan struct{})
+	pipelineHandler.drained = drained
 	go func() {
+		defer close(drained)
 		for lastLogID := range subscription {
 			if err := m.storage.StorePipelineState(ctx, pipeline.ID, lastLogID); err != nil {
 				m.logger.Errorf("Unable to store state: %s", err)
@@ -151,9 +154,9 @@ func (m *Manager) startPipeline(ctx context.Context, pipeline ledger.Pipeline) (
 			m.mu.Lock()
 			defer m.mu.Unlock()
 			defer m.pipelinesWaitGroup.Done()
-			close(subscription)
 		}()
 		pipelineHandler.Run(ctx, subscription)
+		close(subscription)
 	}()
 
 	return pipelineHandler, nil
@@ -167,6 +170,9 @@ func (m *Manager) stopPipeline(ctx context.Context, id string) error {
 
 	if err := handler.Shutdown(ctx); err != nil {
 		return fmt.Errorf("error stopping pipeline: %w", err)
+	}
+	if handler.drained != nil {
+		<-handler.drained
 	}
 	delete(m.pipelines, id)
 
